@@ -505,8 +505,17 @@ impl<F: Write + Seek> Directory<F> {
     where
         W: FnOnce(&mut DirEntry),
     {
+        let old_entry = self.dir_entries[stream_id as usize].clone();
         func(&mut self.dir_entries[stream_id as usize]);
-        self.write_dir_entry(stream_id)
+        let result = self.write_dir_entry(stream_id);
+        if result.is_err() {
+            // The file still holds (at best) the old entry; don't let the
+            // in-memory copy claim the change was made, or a retry of the
+            // failed operation would find nothing left to do and report
+            // success without the entry ever reaching the file.
+            self.dir_entries[stream_id as usize] = old_entry;
+        }
+        result
     }
 
     /// Calls the given function with a mutable reference to the root directory
